@@ -33,6 +33,7 @@ type Analysis struct {
 	mustSum    map[string]map[*ssa.Function]int8
 	respKind   map[ssa.Value]map[string]bool
 	statusVals map[*ssa.Global][2]string
+	statusMemo map[*ssa.Function][]string // statusesAlwaysApplied (per analysis: mutants run in parallel)
 }
 
 type atomRes struct {
@@ -390,26 +391,23 @@ func (an *Analysis) fieldSources(v ssa.Value, path []int, depth int) ([]ssa.Valu
 // localFieldSources: the values stored into member `path` of the local struct cell al (whole-value stores and
 // member stores).
 func (an *Analysis) localFieldSources(al *ssa.Alloc, path []int, depth int) ([]ssa.Value, bool) {
-	{
-		var out []ssa.Value
-		okAll := true
-		for _, st := range an.P.cellStores(al) {
-			r, ok := an.fieldSources(st.Val, path, depth+1)
-			if !ok {
-				okAll = false
-			}
-			out = append(out, r...)
+	var out []ssa.Value
+	okAll := true
+	for _, st := range an.P.cellStores(al) {
+		r, ok := an.fieldSources(st.Val, path, depth+1)
+		if !ok {
+			okAll = false
 		}
-		an.P.fieldStoresOfBase(al, path[0], func(sv ssa.Value) {
-			r, ok := an.fieldSources(sv, path[1:], depth+1)
-			if !ok {
-				okAll = false
-			}
-			out = append(out, r...)
-		})
-		return out, okAll
+		out = append(out, r...)
 	}
-	return nil, false
+	an.P.fieldStoresOfBase(al, path[0], func(sv ssa.Value) {
+		r, ok := an.fieldSources(sv, path[1:], depth+1)
+		if !ok {
+			okAll = false
+		}
+		out = append(out, r...)
+	})
+	return out, okAll
 }
 
 func (an *Analysis) binAtom(x *ssa.BinOp, depth int) (*Atom, bool) {
